@@ -74,6 +74,8 @@ def auto_case(case):
     the real objects per increment) are compared state by state like the manual ones, plus the oracle."""
     v, ops, impl, info = ctl.run_scenario(case)
     viols = [(k.replace("c05.", "c05.auto-"), w) for k, w in oracle_auto(case, v, info)]
+    if any(type(v.ps.get_comp(nm)).__name__ in ("Sensor", "IntelligentSwitch") for fl in case["faults"].values() for nm, _ in fl):
+        viols = [(k.replace("c05.auto-", "c05.auto-devfail."), w) for k, w in viols]
     sig = set()
     for r in info:
         if r["phase"] == "step":
@@ -140,6 +142,9 @@ def gen(rng, n_manual, n_auto):
             c["faults"] = {str(k1): [[rng.choice(names), str(rng.choice([F(3), F(4)]))]], str(k2): [[rng.choice(names), str(rng.choice([F(2), F(3)]))]]}
             if rng.random() < 0.3:
                 c["faults"].setdefault(str(k2 + rng.randint(1, 3)), []).append([rng.choice(names), "2"])
+        if c["kind"] == "auto" and rng.random() < 0.25:
+            from . import c06
+            c06.device_failures(rng, c)
         cases.append(c)
     return cases
 
